@@ -129,6 +129,10 @@ def impl(case) -> str:
     dead = None
     for op in case["ops"]:
         del frames[:]
+        if violations:
+            # the h2 client has torn the connection down (it raised FlowControlError on what the server sent)
+            out.append("-")
+            continue
         try:
             if op[0] == "adv":
                 reactor.step()
@@ -152,6 +156,8 @@ def impl(case) -> str:
     # afterwards: open every window and let the loop run; every body must arrive complete and in order
     del frames[:]
     try:
+        if violations:
+            raise h2.exceptions.FlowControlError()
         cl.increment_flow_control_window(2 ** 30)
         for k in range(1, len(bodies) + 1):
             if k not in ended:
@@ -164,7 +170,7 @@ def impl(case) -> str:
             if len(ended) == len(bodies):
                 break
     except h2.exceptions.FlowControlError:
-        dead = dead or "X:FlowControlError-late"
+        dead = dead or ("X:FlowControlError-late" if not violations else None)
     final = []
     for k in range(len(bodies)):
         want = bytes(_byte(k, j) for j in range(sum(bodies[k])))
@@ -193,6 +199,7 @@ def oracle(case, obs):
     cwin = 65535
     mf = 16384
     done = set()
+    neg_seen = False
     parts = tail.split(" ")
     setup = parts[0]
     if setup != "-":
@@ -211,6 +218,8 @@ def oracle(case, obs):
             iw = op[1]
         elif op[0] == "mf":
             mf = op[1]
+        if any(swin[k] < 0 for k in swin if k not in done):
+            neg_seen = True
         for e in ([] if st == "-" else st.split(",")):
             if e.startswith("X:"):
                 neg = any(swin[k] < 0 for k in swin if k not in done) or cwin < 0
@@ -230,6 +239,10 @@ def oracle(case, obs):
             elif e.startswith("e"):
                 done.add((int(e[1:]) + 1) // 2)
     if "client-FlowControlError" in tail:
+        if neg_seen:
+            return Failure(case, "the server sent a DATA frame (the empty END_STREAM one) on a stream whose window is "
+                           "negative after a SETTINGS decrease; the h2 peer answers FlowControlError and drops the "
+                           "connection", "end-stream-on-negative-window")
         return Failure(case, "the h2 client saw DATA beyond its window", "exceeds-window")
     finals = parts[1].split(",") if len(parts) > 1 and parts[1] else []
     for k, f in enumerate(finals):
